@@ -44,6 +44,9 @@ func main() {
 		if handled, code := checks.ReplayScenario(os.Args[3]); handled {
 			os.Exit(code)
 		}
+		if handled, code := checks.ReplayV2(os.Args[3]); handled {
+			os.Exit(code)
+		}
 		c, err := checks.Build(id, "quick", seed)
 		if err != nil {
 			fmt.Println("INCONCLUSIVE:", err)
@@ -54,6 +57,9 @@ func main() {
 	if tier != "quick" && tier != "thorough" {
 		fmt.Println("tier must be quick or thorough")
 		os.Exit(2)
+	}
+	if id == "C19" || id == "C20" {
+		os.Exit(checks.RunV2(id, tier, seed))
 	}
 	if id == "C18" {
 		os.Exit(checks.RunC18(id, tier, seed))
